@@ -1,11 +1,128 @@
 (** * C14 property theorems — statements only; proofs live in coq/C14/*.v (and
-    coq/C18/Grid*.v for the grid layer). *)
+    coq/C18/GridProofs.v for the grid layer).  All over the instance R of the
+    model coq/C14/Calc.v; [knot g i] = exp (front + delta i) is the energy of
+    knot i, [xs_at] is XsCalculator::operator[] (the table value at a knot). *)
 From Coq Require Import Reals ZArith List.
-From Celer Require Import Base.Num Base.NumR C18.Algorithms C18.Grids C14.Calc
-  C14.MscProofs C14.LossWitness.
+From Celer Require Import Base.Num Base.NumR C18.Algorithms C18.Grids C18.GridProofs C14.Calc
+  C14.XsProofs C14.RangeProofs C14.LossProofs C14.MscProofs C14.LossWitness.
 Import ListNotations.
 Local Open Scope R_scope.
 
+(** ** XsCalculator / EnergyLossCalculator *)
+Theorem C14_xs_at_knots : forall g i, xs_valid g -> (0 <= i < ug_size (xg_loge g))%Z ->
+  xs_calc g (knot g i) = xs_at g i.
+Proof. exact xs_at_knots. Qed.
+Print Assumptions C14_xs_at_knots.
+
+Theorem C14_find_bin_spec : forall g E, xs_valid g ->
+  knot g 0 <= E < knot g (ug_size (xg_loge g) - 1) ->
+  let i := ug_find (xg_loge g) (ln E) in
+  (0 <= i)%Z /\ (i + 1 < ug_size (xg_loge g))%Z /\ knot g i <= E < knot g (i + 1).
+Proof. exact find_bin_spec. Qed.
+Print Assumptions C14_find_bin_spec.
+
+Theorem C14_find_bin_unique : forall g E i, xs_valid g -> (0 <= i)%Z ->
+  (i + 1 < ug_size (xg_loge g))%Z -> knot g i <= E < knot g (i + 1) ->
+  ug_find (xg_loge g) (ln E) = i.
+Proof. exact find_bin_unique. Qed.
+Print Assumptions C14_find_bin_unique.
+
+Theorem C14_xs_between_neighbours : forall g E, xs_valid g ->
+  knot g 0 < E < knot g (ug_size (xg_loge g) - 1) ->
+  let i := ug_find (xg_loge g) (ln E) in
+  knot g i <= E < knot g (i + 1) /\
+  Rmin (xs_at g i) (xs_at g (i + 1)) <= xs_calc g E <= Rmax (xs_at g i) (xs_at g (i + 1)).
+Proof. exact xs_between_neighbours. Qed.
+Print Assumptions C14_xs_between_neighbours.
+
+Theorem C14_xs_continuous : forall g i, xs_valid g -> (0 < i)%Z ->
+  (i + 1 < ug_size (xg_loge g))%Z -> continuity_pt (xs_calc g) (knot g i).
+Proof. exact xs_continuous. Qed.
+Print Assumptions C14_xs_continuous.
+
+(** on the closed bin the lookup IS the (continuous) bin formula: left limits
+    at every knot, including the last one, equal the knot value *)
+Theorem C14_xs_calc_on_closed_bin : forall g E i, xs_valid g -> (0 <= i)%Z ->
+  (i + 1 < ug_size (xg_loge g))%Z -> knot g i <= E <= knot g (i + 1) ->
+  xs_calc g E = xs_bin g i E.
+Proof. exact xs_calc_on_closed_bin. Qed.
+Print Assumptions C14_xs_calc_on_closed_bin.
+
+Theorem C14_xs_extrapolation : forall g E, xs_valid g -> 0 < E ->
+  (E <= knot g 0 ->
+     xs_calc g E = if (xg_prime g <=? 0)%Z then xs_get g 0 / E else xs_get g 0) /\
+  (knot g (ug_size (xg_loge g) - 1) <= E ->
+     let n1 := (ug_size (xg_loge g) - 1)%Z in
+     xs_calc g E = if (xg_prime g <=? n1)%Z then xs_get g n1 / E else xs_get g n1).
+Proof. exact xs_extrapolation. Qed.
+Print Assumptions C14_xs_extrapolation.
+
+Theorem C14_xs_nonneg : forall g E, xs_valid g -> vals_nonneg g -> 0 < E -> 0 <= xs_calc g E.
+Proof. exact xs_nonneg. Qed.
+Print Assumptions C14_xs_nonneg.
+
+(** ** RangeCalculator / InverseRangeCalculator *)
+Theorem C14_range_monotone : forall g, range_valid g ->
+  forall E1 E2, 0 < E1 <= E2 -> range_calc g E1 <= range_calc g E2.
+Proof. exact range_monotone. Qed.
+Print Assumptions C14_range_monotone.
+
+Theorem C14_inverse_range_monotone : forall g, range_valid g ->
+  forall r1 r2, 0 <= r1 <= r2 -> inv_range_calc g r1 <= inv_range_calc g r2.
+Proof. exact inverse_range_monotone. Qed.
+Print Assumptions C14_inverse_range_monotone.
+
+Theorem C14_range_inverse_id : forall g, range_valid g ->
+  forall E, 0 < E <= knot g (ug_size (xg_loge g) - 1) -> inv_range_calc g (range_calc g E) = E.
+Proof. exact range_inverse_id. Qed.
+Print Assumptions C14_range_inverse_id.
+
+Theorem C14_inverse_range_id : forall g, range_valid g ->
+  forall r, 0 < r <= rv g (ug_size (xg_loge g) - 1) -> range_calc g (inv_range_calc g r) = r.
+Proof. exact inverse_range_id. Qed.
+Print Assumptions C14_inverse_range_id.
+
+(** ** calc_mean_energy_loss *)
+Theorem C14_mean_loss_bounds : forall dedx rng, xs_valid dedx -> vals_nonneg dedx -> range_valid rng ->
+  forall lll E range, 0 < lll <= 1 -> 0 < E -> 0 < range <= range_calc rng E ->
+  forall step, 0 < step <= range -> 0 <= mean_loss dedx rng lll E range step <= E.
+Proof. exact mean_loss_bounds. Qed.
+Print Assumptions C14_mean_loss_bounds.
+
+Theorem C14_mean_loss_range_is_all : forall dedx rng lll E range,
+  E * lll <= range * xs_calc dedx E -> mean_loss dedx rng lll E range range = E.
+Proof. exact mean_loss_range_is_all. Qed.
+Print Assumptions C14_mean_loss_range_is_all.
+
+Theorem C14_mean_loss_monotone_in_branch : forall dedx rng, xs_valid dedx -> vals_nonneg dedx ->
+  range_valid rng -> forall lll E range, 0 < lll <= 1 -> 0 < E -> 0 < range <= range_calc rng E ->
+  forall s1 s2, 0 < s1 <= s2 -> s2 <= range ->
+  (linear_branch dedx lll E s1 <-> linear_branch dedx lll E s2) ->
+  mean_loss dedx rng lll E range s1 <= mean_loss dedx rng lll E range s2.
+Proof. exact mean_loss_monotone_in_branch. Qed.
+Print Assumptions C14_mean_loss_monotone_in_branch.
+
+(** monotone across the switch only under an explicit consistency hypothesis ... *)
+Theorem C14_mean_loss_monotone : forall dedx rng, xs_valid dedx -> vals_nonneg dedx ->
+  range_valid rng -> forall lll E range, 0 < lll <= 1 -> 0 < E -> 0 < range <= range_calc rng E ->
+  (forall s, 0 < s <= range -> ~ linear_branch dedx lll E s -> E * lll <= mean_loss dedx rng lll E range s) ->
+  forall s1 s2, 0 < s1 <= s2 -> s2 <= range ->
+  mean_loss dedx rng lll E range s1 <= mean_loss dedx rng lll E range s2.
+Proof. exact mean_loss_monotone. Qed.
+Print Assumptions C14_mean_loss_monotone.
+
+(** ... F7 settled: without it "does not decrease with step length" is false
+    across the linear/range switch, even for tables consistent at that energy *)
+Theorem C14_mean_loss_monotone_refuted :
+  exists (dedx rng : xsgrid R) (lll e range s1 s2 : R),
+    (forall v, In v (xg_vals dedx) -> 0 < v) /\ (forall v, In v (xg_vals rng) -> 0 < v) /\
+    0 < lll <= 1 /\ 0 < e /\ range_calc rng e = range /\
+    0 < s1 < s2 /\ s2 <= range /\
+    mean_loss dedx rng lll e range s2 < mean_loss dedx rng lll e range s1.
+Proof. exact mean_loss_monotone_refuted. Qed.
+Print Assumptions C14_mean_loss_monotone_refuted.
+
+(** ** MSC path conversions *)
 Theorem C14_msc_geo_le_true : forall min_step dtrl small mscxs rng emass energy lambda range tstep,
   fst (msc_to_geo (T:=R) min_step dtrl small mscxs rng emass energy lambda range tstep) <= tstep.
 Proof. exact msc_geo_le_true. Qed.
@@ -29,13 +146,16 @@ Theorem C14_msc_const_xs_inverse : forall lambda t, 0 < lambda -> 0 <= t ->
 Proof. exact msc_const_xs_inverse. Qed.
 Print Assumptions C14_msc_const_xs_inverse.
 
-(** F7 settled: "does not decrease with step length" is false across the
-    linear/range switch, even for tables that are consistent at the energy *)
-Theorem C14_mean_loss_monotone_refuted :
-  exists (dedx rng : xsgrid R) (lll e range s1 s2 : R),
-    (forall v, In v (xg_vals dedx) -> 0 < v) /\ (forall v, In v (xg_vals rng) -> 0 < v) /\
-    0 < lll <= 1 /\ 0 < e /\ range_calc rng e = range /\
-    0 < s1 < s2 /\ s2 <= range /\
-    mean_loss dedx rng lll e range s2 < mean_loss dedx rng lll e range s1.
-Proof. exact mean_loss_monotone_refuted. Qed.
-Print Assumptions C14_mean_loss_monotone_refuted.
+(** ** UniformGrid::find index law under a rounding-error model (shared with C18) *)
+Theorem C14_find_bin_rounded_in_range : forall (rnd : R -> R) (u : R),
+  0 <= u -> (forall x y, x <= y -> rnd x <= rnd y) -> rnd 0 = 0 ->
+  forall front back size v,
+  (2 <= size)%Z -> 2 * IZR size * u < 1 -> front <= v < back ->
+  let D := rnd (back - front) in
+  let delta := rnd (D / IZR (size - 1)) in
+  0 < D -> (D / IZR (size - 1)) * (1 - u) <= delta ->
+  rnd (D / delta) <= (D / delta) * (1 + u) ->
+  let bin := rfind rnd front back size v in
+  (0 <= bin)%Z /\ (bin + 1 < size)%Z.
+Proof. exact rfind_in_range. Qed.
+Print Assumptions C14_find_bin_rounded_in_range.
